@@ -355,6 +355,7 @@ var c03Order = []Status{AbortStatus, UndoingStatus, UndoStatus, DoingStatus, DoS
 type c03Obs struct {
 	wasReady  bool
 	readyTime time.Time
+	prevOcc   int // occurrences of the change-update notice seen after the previous step
 }
 
 func (o *c03Obs) taskStatus(w *world, i int, old, new Status) {}
@@ -514,17 +515,20 @@ func (o *c03Obs) checkState(w *world) {
 		if o.readyTime.IsZero() {
 			w.problem("monotone: change ready but ready time unset")
 		}
-		// ready notification: a change-update notice for this change whose last occurrence is now
-		found := false
-		for _, n := range w.st.Notices(&NoticeFilter{Types: []NoticeType{ChangeUpdateNotice}, Keys: []string{w.chg.ID()}}) {
-			if !n.lastRepeated.Before(w.now) || !n.lastOccurred.Before(w.now) {
-				found = true
-			}
-		}
-		if !found {
-			w.problem("notify: change became ready without a change-update notice")
+		// ready notification: the change-update notice of this change occurred (again) in this very step
+		if o.noticeOccurrences(w) <= o.prevOcc {
+			w.problem("notify: change became ready without a new occurrence of its change-update notice")
 		}
 	}
+	o.prevOcc = o.noticeOccurrences(w)
+}
+
+func (o *c03Obs) noticeOccurrences(w *world) int {
+	n := 0
+	for _, nt := range w.st.Notices(&NoticeFilter{Types: []NoticeType{ChangeUpdateNotice}, Keys: []string{w.chg.ID()}}) {
+		n += nt.occurrences
+	}
+	return n
 }
 
 func TestVerifC03(t *testing.T) {
